@@ -288,6 +288,23 @@ def check_irq(scn: Dict[str, Any], hist: Dict[str, Any], steps: Optional[List[Di
                     frames.append({"kind": "ir", "s_before": s_before, "pc": exp_pc, "f": pre[O_F],
                                    "imr": pre[O_IMR], "k": k,
                                    "regs": [pre[O_BA], pre[O_I], pre[O_X], pre[O_Y], pre[O_U]]})
+                elif opcode == 0x01 and tag == "BARE_RETI":
+                    # a RETI over a frame the program built by hand (no interrupt was taken): PC, F, IMR and S come from
+                    # the frame; which status bits it may touch is judged below (none: it serves no request)
+                    probe("reti_hand_built_frame")
+                    want = (scn["prog"].get("bare") or {}).get(str(pre[O_PC]))
+                    if want and not (d is not None and d["order"] == "before_exec"):
+                        bad = []
+                        if aft["pc"] != want[0]:
+                            bad.append(f"PC={aft['pc']:#x} expected {want[0]:#x}")
+                        if (aft["f"] & 3) != (want[1] & 3):
+                            bad.append(f"F={aft['f']:#04x} expected {want[1]:#04x}")
+                        if aft["imr"] != want[2]:
+                            bad.append(f"IMR={aft['imr']:#04x} expected {want[2]:#04x}")
+                        if (aft["s"] & 0xFFFFF) != want[3]:
+                            bad.append(f"S={aft['s']:#x} expected {want[3]:#x}")
+                        if bad:
+                            V("reti", k, "RETI over a hand-built frame: " + "; ".join(bad), field=bad[0].split("=")[0], kind="hand_built")
                 elif opcode == 0x01:
                     # RETI.  With delivery-before-execute ordering the RETI ran from `pre`;
                     # with execute-before-delivery ordering its result is `after`.
